@@ -1,6 +1,7 @@
 #!/bin/sh
-# builds the engine binary from /verif/engine (offline)
+# builds the engine binary from <verif>/engine (offline); <verif> is the directory this script lives in (/verif or a snapshot)
 set -e
-cd /verif/engine
+V=$(cd "$(dirname "$0")/.." && pwd)
+cd "$V/engine"
 export GOFLAGS=-mod=mod GOPROXY=off GOSUMDB=off GOTOOLCHAIN=local
-go build -o /verif/bin/verif-engine ./cmd/verif-engine
+go build -o "$V/bin/verif-engine" ./cmd/verif-engine
